@@ -4,6 +4,7 @@ CONSTANTS
   StringSlotLax = TRUE
   RangeCheck = TRUE
   AnyCimIntAsIs = FALSE
+  ArrayHeadShortcut = FALSE
   Deltas <- DeltasSmall
 INVARIANT ImplWithinReq
 CHECK_DEADLOCK FALSE
